@@ -160,6 +160,10 @@ def c08(ctx):
     n, b = scale(ctx, (3000, 4), (8000, 16))
     sem.split_batches(ctx, "save", "c08", n, b)
     sem.trace_batches(ctx, "save", "MachineTrace_C08.cfg", n, min(b, 4))
+    # every "save, then draw" program of the exhaustive family (amount below / at / above the balance, save-all, bounded and
+    # unbounded overdrafts after it, the feature flag on for every other member): the statement after the save must behave as
+    # the reference semantics says on the balance the save left visible
+    sem.family_replay(ctx, "save", "MachineTrace_SAVE.cfg", also=("C01", "C02", "C03", "C04", "C07"))
     sem.scale_sem(ctx, "save", "MachineTrace_C08.cfg", scale(ctx, 1500, 15000))
     return ctx.finish("model_checking", "scripts of the 'save' corpus (1-5 statements, saves placed anywhere among probing sends: send-all and exact sends, with and "
                       "without bounded overdraft, balances negative/zero/positive); one evaluation = one save-split (whole vs prefix + suffix on the TLC-printed "
